@@ -3,6 +3,7 @@ import Genq.Driver.Util
 import Genq.Model.Http
 import Genq.Model.HttpResp
 import Genq.Model.Names
+import Genq.Model.TypeNames
 import Genq.Model.Main
 import Genq.Model.Ws
 import Genq.Model.Doc
@@ -122,6 +123,16 @@ def opNames (op : String) (j : Json) : Except String Json := do
         ("consts", Json.arr (css.map fun cs => Json.arr (cs.map fun c => Json.arr #[str c.goName, str c.gqlName]).toArray).toArray)]
     | .conflict k a b n => return Json.mkObj [("res", "conflict"), ("enum", k), ("val", str a), ("other", str b), ("goName", str n)]
     | .crossConflict k a n => return Json.mkObj [("res", "cross"), ("enum", k), ("val", str a), ("goName", str n)]
+  | "names.typeName" =>
+    -- the Go name of the type generated for `typeName` at the end of a path of (declaring type, alias) steps
+    let algo := (← parseCasing ((j.getObjValAs? String "casing").toOption.getD "")).getD .default
+    let root ← asciiName (← getStr j "root")
+    let steps ← (← getArr j "steps").toList.mapM fun e => do
+      let p ← e.getArr?
+      if h : p.size = 2 then pure ((← asciiName (← p[0].getStr?)), (← asciiName (← p[1].getStr?))) else throw "step"
+    let tn ← asciiName (← getStr j "typeName")
+    let pre := Names.walk root steps algo
+    return Json.mkObj [("name", str (Names.makeTypeName pre tn algo)), ("long", str (Names.makeLongTypeName pre tn algo))]
   | "names.fn" =>
     let s ← asciiName (← getStr j "s")
     let r ← match (← getStr j "fn") with
